@@ -390,7 +390,13 @@ def r3(ctx: Ctx) -> None:
     head = [x for x in g.reachable() if x.kind == "join" and x.ast is loops[0]][0]
     avail = Cond(P - N, "<")  # N > P
     n = 0
-    for st, end in it.paths(start=head, st0=it.init_state()):
+    # the cursor that walks the buffer: the expression the buffer is indexed with (self._pos today; a local copy
+    # written back on every exit is the same thing)
+    cursor = "self._pos"
+    for x in own_nodes(fn.node):
+        if isinstance(x, ast.Subscript) and norm(x.value) == "self._buffer" and not isinstance(x.slice, ast.Slice):
+            cursor = norm(x.slice)
+    for st, end in it.paths():
         n += 1
         rets = [e for e in st.events if e[0] == "return"]
         idx = [e for e in st.events if e[0] == "index"]
@@ -398,11 +404,13 @@ def r3(ctx: Ctx) -> None:
         in_body = _has(st.conds, avail)
         if not in_body:
             # loop not entered: must return -1 under N <= P, without touching anything
-            ok = bool(rets) and rets[-1][1] == Lin.c(-1) and _has(st.conds, negate(avail)) and not [e for e in st.events if e[0] in ("write", "index")]
+            ok = bool(rets) and rets[-1][1] == Lin.c(-1) and _has(st.conds, negate(avail)) and not [e for e in st.events if e[0] == "index"] and all(e[1] == "self._pos" and e[2] == P for e in st.events if e[0] == "write")
             ctx.ob("C01.R3", fn, f"varint: -1 exactly when no byte is available ({tag})", ok, f"returns {rets[-1][1] if rets else None!r} under {st.conds!r}")
             continue
         ctx.ob("C01.R3", fn, f"varint: one byte read at the cursor ({tag})", len(idx) == 1 and idx[0][1] == B and idx[0][2] == P and _has(idx[0][3], avail), f"indexes {[(e[1], e[2]) for e in idx]}")
-        ctx.ob("C01.R3", fn, f"varint: cursor advances by one per byte ({tag})", st.env.get("self._pos") == P + Lin.c(1), f"_pos becomes {st.env.get('self._pos')!r}")
+        cur_v = st.env.get(cursor)
+        okc = cur_v == P + Lin.c(1) and (not rets or st.env.get("self._pos") == P + Lin.c(1))
+        ctx.ob("C01.R3", fn, f"varint: cursor advances by one per byte ({tag})", okc, f"cursor {cursor} becomes {cur_v!r}, _pos at the return {st.env.get('self._pos')!r}")
         if rets:
             ctx.ob("C01.R3", fn, f"varint: a complete value is never the sentinel ({tag})", rets[-1][1] != Lin.c(-1), "returns -1 although a terminating byte was read")
     ctx.count("C01.R3.varuint", n, 3, "paths of _read_varuint")
